@@ -104,8 +104,9 @@ def roles(cx, s):
         if s.op == 'swap' and s.sub == 'fast':
             out.append(('debt-fast-publish', 0, 'SeqCst', 'Dekker pair with the writer\'s cell RMW'))
         if s.op in ('compare_exchange', 'compare_exchange_weak') and U.int_of(b, s.arg(2)) == cx.NONE:
-            out.append(('debt-payback', 0, 'Release', 'protected accesses may not sink below the pay-back'))
-            out.append(('debt-payback-fail', 1, 'Acquire', 'the Release of a reader that returned its debt itself needs an Acquire partner: the only one who can be it is '
+            out.append(('debt-payback', 0, 'SeqCst', 'Release: protected accesses may not sink below the pay-back. SeqCst because the same exchange is the WRITER\'s look at the slot: '
+                        'writer = cell RMW ; slot exchange, reader = slot.swap ; cell.load is a store-buffering pair and the exchange must be in the single total order (both outcomes)'))
+            out.append(('debt-payback-fail', 1, 'SeqCst', 'the failed exchange is the writer\'s READ of the slot in the store-buffering pair above (a Relaxed / Acquire failure is formally allowed to return a value older than the reader\'s slot.swap); and at least Acquire because the Release of a reader that returned its debt itself needs an Acquire partner: the only one who can be it is '
                         'the writer whose pay-back on that slot FAILS (it reads the NONE the reader stored). Without it the reader\'s reads of the value do not happen-before '
                         'its destruction by whoever drops the last reference later (Miri: data race on the pointee)'))
     elif s.cls == 'control':
@@ -118,7 +119,8 @@ def roles(cx, s):
         elif s.op == 'load':
             # helper side: the receiver is not `self` (arg 1) or the value feeds the tag match
             if s.root != ('arg', 1):
-                out.append(('control-helper-load', 0, 'Acquire', 'reads reader-written data (active_addr, space_offer)'))
+                out.append(('control-helper-load', 0, 'SeqCst', 'the writer\'s half of the store-buffering pair of the helping path (writer = cell RMW ; control.load, reader = control.swap(gen) ; cell.load): '
+                            'if it still reads IDLE the reader must see the new pointer, which needs this load in the single total order; Acquire for the reader-written data (active_addr, space_offer)'))
         elif s.op in ('compare_exchange', 'compare_exchange_weak'):
             out.append(('control-handover-cas', 0, 'AcqRel', 'hands the envelope over (Release) and receives the reader\'s space (Acquire)'))
             out.append(('control-handover-cas-fail', 1, 'Acquire', 'the failure value is used as the new control'))
